@@ -80,7 +80,10 @@ def rand_op(rng, j, nn=6, weights=None, force=None):
         fmt = rng.choice([1, 2])
         its = [item(id=-1 if rng.random() < 0.03 else rng.randrange(nn), a=rand_item_attr(rng) if fmt == 2 else [])
                for _ in range(rng.randrange(0, 4))]
-        return mkop(name, fmt=fmt, items=its, a=rand_attr(rng))
+        # attribute entries that are not dicts: key/value pairs (b2), something that is no collection at all (b4)
+        odd_ = fmt == 2 and its and rng.random() < 0.15
+        return mkop(name, fmt=fmt, items=its, a=rand_attr(rng), b2=bool(odd_) and rng.random() < 0.5,
+                    b4=bool(odd_) and rng.random() < 0.5)
     if name == "remove_node":
         return mkop(name, n=anynode(), b1=rng.random() < 0.4, b2=rng.random() < 0.6)
     if name == "remove_nodes_from":
